@@ -400,3 +400,65 @@ def scratch_initialised_rule(chk, cid, prog, cfgname):
                     'the aggressive-absorption flag are whatever the stack held, and the ordering changes with the call history' % (kn[0].a.get('name') if kn else 'knobs'),
                     cfgname=cfgname)
     return n
+
+
+def qselect_input_rule(chk, cid, prog, cfgname):
+    """`tol = ?qselect(n, W, k)` selects the k-th largest of W[0..n).  W is scratch (a caller work array or recycled heap), so the statement that
+    fills it must write exactly the n entries that are read: a BLAS copy `?copy_(&n, src, &1, W, &1)` with the same count, or a counting loop
+    `for (i = 0; i < n; ++i..) W[i] = ..` whose condition bounds the subscript variable by the same count.  A shorter fill leaves residue of
+    earlier calls in the selection, so the drop tolerance - and with it the incomplete factors - depend on the history of the process."""
+    from ..run import AnalysisBroken
+    n = 0
+    for f in prog.all_funcs():
+        if not f.unit.startswith('SRC/ilu_'):
+            continue
+        for blk in f.body.walk():
+            if blk.k != 'Block':
+                continue
+            sts = [s for s in blk.c if s.k != 'Empty']
+            for i, s in enumerate(sts):
+                call = None
+                if s.k == 'Assign' and strip(s.c[1]).k == 'Call' and (callee_name(strip(s.c[1])) or '').endswith('qselect'):
+                    call = strip(s.c[1])
+                if call is None:
+                    continue
+                chk.saw(unit=f.unit, func=f.unit + ':' + f.name)
+                cnt, W = call.c[1], root_ref(call.c[2])
+                if W is None:
+                    raise AnalysisBroken('%s: array argument of %s not a plain array' % (f.name, callee_name(call)))
+                cnt_c = canon(cnt, ids=False)
+                n += 1
+                inst = '%s:%s(%s,%s)-input-filled' % (f.name, callee_name(call), cnt_c, W.a.get('name'))
+                if i == 0:
+                    chk.violate(cid, inst, loc(f, s), f.name, 'no statement before `%s` fills %s[0..%s)' % (pretty(s)[:50], W.a.get('name'), cnt_c), cfgname=cfgname)
+                    continue
+                prev = sts[i - 1]
+                ok, why = False, 'the statement before the selection (`%s`) is neither a copy nor a counting loop into %s' % (pretty(prev)[:50], W.a.get('name'))
+                pc = strip(prev) if prev.k != 'For' else None
+                if pc is not None and pc.k == 'Call' and (callee_name(pc) or '').rstrip('_').endswith('copy') and len(pc.c) >= 6:
+                    c0 = strip(pc.c[1])
+                    c0 = c0.c[0] if c0.k == 'Unary' and c0.a['op'] == '&' else c0
+                    dst = root_ref(pc.c[4])
+                    ok = canon(c0, ids=False) == cnt_c and dst is not None and dst.a.get('id') == W.a.get('id')
+                    why = '`%s` copies %s entries into %s, the selection reads %s' % (pretty(pc)[:60], canon(c0, ids=False), dst.a.get('name') if dst is not None else '?', cnt_c)
+                elif prev.k == 'For':
+                    body = prev.c[3]
+                    asg = [x for x in ([body] if body.k == 'Assign' else body.walk()) if x.k == 'Assign' and strip(x.c[0]).k == 'Index'
+                           and root_ref(x.c[0]) is not None and root_ref(x.c[0]).a.get('id') == W.a.get('id')]
+                    cond = strip(prev.c[1])
+                    if asg and cond.k == 'Binary' and cond.a['op'] == '<':
+                        sub = strip(strip(asg[0].c[0]).c[1])
+                        lhs = strip(cond.c[0])
+                        zero = any(x.k == 'Assign' and strip(x.c[0]).k == 'Ref' and sub.k == 'Ref' and strip(x.c[0]).a.get('id') == sub.a.get('id') and const_value(x.c[1]) == 0
+                                   for x in prev.c[0].walk())
+                        ok = sub.k == 'Ref' and lhs.k == 'Ref' and lhs.a.get('id') == sub.a.get('id') and canon(cond.c[1], ids=False) == cnt_c and zero
+                        why = 'fill loop `for (%s; %s; ..) %s` against a selection over %s[0..%s)' % (pretty(prev.c[0])[:20], pretty(cond), pretty(asg[0])[:40], W.a.get('name'), cnt_c)
+                if ok:
+                    chk.ok(cid, inst, sample=why)
+                else:
+                    chk.violate(cid, inst, loc(f, prev), f.name,
+                                why + ': the scratch array must be written for exactly the entries the selection reads, or the drop tolerance is computed from residue of earlier calls',
+                                cfgname=cfgname)
+    if n < 8:
+        raise AnalysisBroken('qselect_input_rule: %d selection call sites, floor 8' % n)
+    return n
